@@ -545,6 +545,10 @@ def st_For(ex, node, st):
             yield from _unroll(ex, node, itv.items, s)
             continue
         lname = f"loop{idx}"
+        if spec.get("bound"):
+            # the loop runs at most `bound` iterations: the iterated range has exactly that length
+            b = as_int(ex.ev1(__import__("ast").parse(spec["bound"], mode="eval").body, s.fork()))
+            ex.oblige(f"{lname}.bound", "post", s, z3.Implies(b >= 0, view.len == b), {"clause": f"loop {idx} iterates at most {spec['bound']} times"})
         # 1. invariant holds on entry (i = 0)
         s.env["_i"] = IVal(0)
         s.env["_seq"] = view
